@@ -20,7 +20,7 @@ import (
 func init() { register("C11", "exploration", runC11) }
 
 func runC11(r *ev.Run) {
-	r.SetRule("a gluon server runs in a child process with no panic handler (a panic kills it, as in production). Hostile connections (before LOGIN, logged in, with a mailbox selected) send: grammar-generated valid commands, byte-level mutations of them (flips, cuts, inserted parens/braces/quotes/NUL/8-bit, huge numbers), numbers at the edges of int32/uint32/int64/uint64 in every numeric position, lines sent behind a LOGOUT or behind the 20th consecutive error, hand-written extremes (10^4-fold nesting, 2^32 and 2^64 numbers in sets, partials and literal sizes, 1 MiB atoms, thousands of empty lines, tag-only lines), literals that are announced and then cut off by a disconnect, and batches of pipelined lines. The client follows the protocol for literals (waits for '+'). Oracles: the child stays alive; every line that was completely sent gets exactly one completion (tagged with its tag when the tag is a plain atom, else '* BAD'), checked with a NOOP probe behind it; the connection then still answers NOOP unless the server said BYE after repeated errors; a sentinel session of another user keeps getting the same FETCH answer; after all hostile connections are gone the goroutine count returns to the start level, RSS stays under 700 MiB and the idle server burns < 1 s CPU in 3 s. distinct = distinct (state, input family, outcome) triples")
+	r.SetRule("a gluon server runs in a child process with no panic handler (a panic kills it, as in production). Hostile connections (before LOGIN, logged in, with a mailbox selected) send: grammar-generated valid commands, byte-level mutations of them (flips, cuts, inserted parens/braces/quotes/NUL/8-bit, huge numbers), numbers at the edges of int32/uint32/int64/uint64 in every numeric position, lines sent behind a LOGOUT or behind the 20th consecutive error, hand-written extremes (10^4-fold nesting, 2^32 and 2^64 numbers in sets, partials and literal sizes, 1 MiB atoms, thousands of empty lines, tag-only lines), literals that are announced and then cut off by a disconnect, and batches of pipelined lines. The client follows the protocol for literals (waits for '+'). Oracles: the child stays alive; every line that was completely sent gets exactly one completion (tagged with its tag when the tag is a plain atom, else '* BAD'), checked with a NOOP probe behind it; the connection then still answers NOOP unless the server said BYE after repeated errors; a sentinel session of another user keeps getting the same FETCH answer; after all hostile connections are gone the goroutine count returns to the start level, the heap that is live after a collection stays under 400 MiB (checked whenever RSS passes 700 MiB, hard cap 3 GiB) and ends within 300 MiB of its start and the idle server burns < 1 s CPU in 3 s. distinct = distinct (state, input family, outcome) triples")
 	r.Assume("lines carry no CR/LF except their terminator and inside literals; 'hang' means no completion within a 60 s watchdog and is reported as inconclusive unless the child is burning CPU or a second try on a fresh connection hangs too")
 
 	conns := r.Pick(400, 6000)
@@ -112,9 +112,20 @@ func runC11(r *ev.Run) {
 				maxRSS = rss
 			}
 
-			if maxRSS > 700*1024 {
-				c.violate("C11 memory-grew", fmt.Sprintf("the server's RSS reached %d MiB after %d hostile connections (it started at a few dozen)", maxRSS/1024, i+1))
-				return
+			// RSS alone also shows what the Go runtime has not yet given back; what counts is the heap that is
+			// still live after a collection (and a hard cap on RSS as a backstop).
+			if rss := child.RSSKB(); rss > 700*1024 {
+				_, _ = child.Ctl("gc", 120*time.Second)
+
+				st, err := child.Stats()
+				if err == nil {
+					r.Count("rss_above_700MiB_checked_after_gc", 1)
+
+					if st.HeapAlloc > 400<<20 || rss > 3<<20 {
+						c.violate("C11 memory-grew", fmt.Sprintf("after %d hostile connections the server's live heap is %d MiB after a collection (RSS %d MiB); it started at a few MiB", i+1, st.HeapAlloc>>20, rss/1024))
+						return
+					}
+				}
 			}
 		}
 	}
@@ -154,6 +165,18 @@ func runC11(r *ev.Run) {
 
 	r.Set("goroutines_start", base.Goroutines)
 	r.Set("goroutines_end", st.Goroutines)
+
+	_, _ = child.Ctl("gc", 120*time.Second)
+
+	if st2, err := child.Stats(); err == nil {
+		r.Set("live_heap_start_bytes", base.HeapAlloc)
+		r.Set("live_heap_end_bytes_after_gc", st2.HeapAlloc)
+
+		if st2.HeapAlloc > base.HeapAlloc+(300<<20) {
+			c.violate("C11 memory-grew", fmt.Sprintf("after all %d hostile connections were closed and a collection the live heap is %d MiB; it started at %d MiB", conns, st2.HeapAlloc>>20, base.HeapAlloc>>20))
+			return
+		}
+	}
 
 	if st.Goroutines > base.Goroutines+2 {
 		c.r.Violate("C11 goroutines-left-behind", fmt.Sprintf("%d goroutines are left 10 s after all %d hostile connections were closed; the server started with %d", st.Goroutines, conns, base.Goroutines), "c11", map[string]any{"history": c.log, "goroutines": shorten(child.Stacks(), 20000)})
